@@ -2,6 +2,7 @@ import T4V.Model.Inline
 import T4V.Model.Lattice
 import T4V.Sexp
 import T4V.Model.Post
+import T4V.Model.PotTransform
 /-! Wire encoding of Layer-B model inputs/outputs (S-expressions). -/
 namespace T4V
 
@@ -130,6 +131,45 @@ def runComplement (s : Sexp) : String :=
             | .ok g' =>
               go ks (cs.map fun x => if x.id == k then { x with geom := g' } else x) (s!"(cell {k} {encodeGeom g'})" :: acc)
     go (cells.map (·.id)) cells []
+
+/-- `(pt (ns N) (nc N) (cells (cell id geom)…) (cache (e c tr k)…) (call cell c tr uc) | (call tree tr geom))` →
+the result of `cell_transform` / `pot_transform`, the two counters, and what the call created: surfaces
+`(s new source facet|- tr)`, cells `(cell k geom)`, cache entries `(e c tr k)` -/
+def runPotTransform (s : Sexp) : String :=
+  let num (name : String) : Option Nat := (s.field? name).bind fun x => match x.args with | [.atom a] => a.toNat? | _ => none
+  let cells : Option (List (Nat × Geom)) := (s.field? "cells").bind fun cs => cs.args.mapM fun c => match c with
+      | .list [.atom "cell", .atom id, g] => do pure (← id.toNat?, ← decodeGeom g)
+      | _ => none
+  let cache : Option (List ((Nat × Nat) × Nat)) := (s.field? "cache").bind fun cs => cs.args.mapM fun c => match c with
+      | .list [.atom "e", .atom c, .atom t, .atom k] => do pure ((← c.toNat?, ← t.toNat?), ← k.toNat?)
+      | _ => none
+  match num "ns", num "nc", cells, cache, s.field? "call" with
+  | some ns, some nc, some cells, some cache, some call =>
+    let st : PTSt := { nextSurf := ns, nextCell := nc, cells, cache }
+    let fuel := 100000
+    let show_ (res : String) (st' : PTSt) : String :=
+      let surfs := st'.newSurfs.map fun (k, n, sub, t) =>
+        s!"(s {k} {n} {match sub with | some f => toString f | none => "-"} {t})"
+      let newCells := (st'.cells.drop cells.length).map fun (k, g) => s!"(cell {k} {encodeGeom g})"
+      let newCache := (st'.cache.drop cache.length).map fun ((c, t), k) => s!"(e {c} {t} {k})"
+      s!"ok (res {res}) (ns {st'.nextSurf}) (nc {st'.nextCell}) (surfs {" ".intercalate surfs}) (cells {" ".intercalate newCells}) (cache {" ".intercalate newCache})"
+    match call.args with
+    | [.atom "cell", .atom c, .atom t, .atom uc] =>
+      (match c.toNat?, t.toNat? with
+       | some c, some t =>
+         (match cellTransform t (uc == "1") fuel c st with
+          | .ok (k, st') => show_ (toString k) st'
+          | .error e => "ok error " ++ errName e)
+       | _, _ => "err bad-request")
+    | [.atom "tree", .atom t, g] =>
+      (match t.toNat?, decodeGeom g with
+       | some t, some g =>
+         (match potTransform t fuel g st with
+          | .ok (g', st') => show_ (encodeGeom g') st'
+          | .error e => "ok error " ++ errName e)
+       | _, _ => "err bad-request")
+    | _ => "err bad-request"
+  | _, _, _, _, _ => "err bad-request"
 
 /-- `(inline (max X) (cells (cell id univ geom)…))` → every cell's geometry after `inline_cells` -/
 def runInline (s : Sexp) : String :=
